@@ -320,11 +320,39 @@ def run_history(rec, rng, case):
     from typhon.collocations import Collocator
     p, s = M.gen_case(case["gen"])
     coll = Collocator()
-    steps = rng.choice([["same", "same"], ["same", "swap", "same"], ["same", "perturb", "perturb2"],
+    steps = rng.choice([["single-then-stack"], ["single-then-stack", "same"],
+                        ["same", "same"], ["same", "swap", "same"], ["same", "perturb", "perturb2"],
                         ["same", "bigger", "same"], ["swap", "perturb", "swap", "same"],
                         ["same", "perturb-secondary", "same"]])
     p0, s0 = p, s
     for step in steps:
+        if step == "single-then-stack":
+            # call 1: both sets are one point (index built from a single point); call 2: a time series
+            # of several points that all sit exactly at that position (a station)
+            one_p = {k: v[:1].copy() for k, v in p0.items()}
+            one_s = {k: v[:1].copy() for k, v in s0.items()}
+            one_s["lat"][:] = one_p["lat"][0]
+            one_s["lon"][:] = one_p["lon"][0]
+            one_s["time"][:] = one_p["time"][0]
+            flat = {"kind": "flat", "dim": "obs", "labels": "int"}
+            c1 = dict(case, layout1=flat, layout2=flat, window=None)
+            call = make_call(rng, c1, one_p, one_s, stack=1)
+            call["step"] = step
+            rec.count("history.calls")
+            check_call(rec, coll, dict(c1, history=steps), one_p, one_s, call, tag="history")
+            k = rng.choice([3, 6, 12])
+            tick = case["gen"].get("tick_ns", M.SEC)
+            st_p = {"time": one_p["time"][0] + np.arange(k, dtype=np.int64) * tick,
+                    "lat": np.full(k, one_p["lat"][0]), "lon": np.full(k, one_p["lon"][0]),
+                    "id": np.arange(k, dtype=np.int64) + 200000}
+            st_s = {"time": one_p["time"][0] + np.arange(k - 1, dtype=np.int64) * tick,
+                    "lat": np.full(k - 1, one_p["lat"][0]), "lon": np.full(k - 1, one_p["lon"][0]),
+                    "id": np.arange(k - 1, dtype=np.int64) + 600000}
+            call = make_call(rng, c1, st_p, st_s, stack=k)
+            call["step"] = step
+            rec.count("history.calls")
+            check_call(rec, coll, dict(c1, history=steps), st_p, st_s, call, tag="history")
+            continue
         if step == "same":
             call = make_call(rng, case, p0, s0)
             pp, ss = p0, s0
@@ -398,6 +426,9 @@ def replay(case, rec):
     coll = Collocator()
     for call in case.get("calls", []):
         pp, ss = p, s
+        if call.get("stack"):
+            run_history(rec, rng_for(0, "replay"), dict(case, calls=[]))
+            return
         if call.get("perturb") in ("perturb", "perturb2"):
             pp = M.perturb(p, 11.0, case["gen"]["seed"] + (7 if call["perturb"] == "perturb" else 8))
             # replay the stale-index history: first the unperturbed call
